@@ -14,7 +14,11 @@ if [ ! -d "$W/.git" ] && [ ! -f "$W/.git" ]; then
 fi
 git -C "$W" checkout -q --detach "$(git -C /repo rev-parse HEAD)" 2>/dev/null
 git -C "$W" checkout -q -- . ; git -C "$W" clean -fdq -e target
-if ! git -C "$W" apply "$D/patch.diff"; then echo "PATCH-DOES-NOT-APPLY $D"; exit 2; fi
+# patch.diff is relative to the commit the seeding agent saw; when a later repair in /repo touches the
+# same lines, patch-rebased.diff carries the same change onto the current HEAD
+if ! git -C "$W" apply "$D/patch.diff" 2>/dev/null; then
+  if [ -f "$D/patch-rebased.diff" ] && git -C "$W" apply "$D/patch-rebased.diff"; then :; else echo "PATCH-DOES-NOT-APPLY $D"; exit 2; fi
+fi
 for P in "$@"; do
   ( cd "$V" && MMV_REPO="$W" VERIF_SEED=${VERIF_SEED:-1} ./check "$P" ${SEEDTEST_TIER:-quick} ) > "$D/result-$P.txt" 2>&1
   rc=$?
